@@ -5,7 +5,7 @@
 //! * `spec <max> <interval> <d>:<o> ...`  — the real `speculative_execution::execute` over synthetic fibers:
 //!   the i-th fiber created by the generator sleeps `d_i` ms (0 = does not sleep at all) and returns `o_i`
 //!   (`ok`, `none` = plan exhausted, or an error name); fibers beyond the script return `none` at once;
-//! * `gate <idem> <none|max:interval> <c>:<d>:<o>:<dec> ...` — the real `run_request_no_side_effects`
+//! * `gate <idem>[/<timeout>] <none|max:interval> <c>:<d>:<o>:<dec> ...` — the real `run_request_no_side_effects` (with `request_timeout = timeout` ms when given)
 //!   (idempotence gate + `SharedPlan` + real fibers) over synthetic targets: target k has a connection iff
 //!   `c = 1`, an attempt on it takes `d` ms and ends with `o` (`ok` or an attempt-error name); on an error the
 //!   (scripted) retry policy answers `dec`: `n` next target, `d` don't retry, `i` ignore write error,
@@ -306,7 +306,12 @@ fn random_gate(rng: &mut Rng, max_targets: usize) -> String {
         format!("{}:{}", rng.below(5), *rng.pick(&[4u64, 10, 10, 25]))
     };
     let n = rng.below(max_targets as u64 + 1) as usize;
-    let mut line = format!("gate {} {}", idem as u8, pol);
+    let timeout = if rng.chance(1, 3) {
+        format!("/{}", *rng.pick(&[0u64, 1, 5, 10, 15, 20, 25, 30, 40, 60, 100, 200]))
+    } else {
+        String::new()
+    };
+    let mut line = format!("gate {}{} {}", idem as u8, timeout, pol);
     for _ in 0..n {
         let c = if rng.chance(1, 7) { 0 } else { 1 };
         let d = match rng.below(5) {
@@ -343,7 +348,8 @@ const GATE_POOL: [&str; 9] = [
 
 fn emit_gate_exhaustive(targets: usize, emit: &mut dyn FnMut(String)) {
     let total = GATE_POOL.len().pow(targets as u32);
-    for idem in [0, 1] {
+    // without a client-side timeout, with one off the grid of completion times, with one that ties with them
+    for idem in ["0", "1", "0/12", "1/12", "0/30", "1/30"] {
         for pol in ["none", "0:10", "1:10", "2:10"] {
             for code in 0..total {
                 let mut c = code;
@@ -701,10 +707,22 @@ fn run_gate(w: &[&str], ctx: &mut Ctx) -> String {
     if w.len() < 3 {
         return "bad-case".to_owned();
     }
-    let idem = match w[1] {
+    let (idem_tok, timeout_tok) = match w[1].split_once('/') {
+        Some((b, t)) => (b, Some(t)),
+        None => (w[1], None),
+    };
+    let idem = match idem_tok {
         "0" => false,
         "1" => true,
         _ => return "bad-case".to_owned(),
+    };
+    // client-side request timeout (virtual ms): `RequestExecutionParams::request_timeout`
+    let request_timeout: Option<u64> = match timeout_tok {
+        None => None,
+        Some(t) => match t.parse::<u64>() {
+            Ok(t) => Some(t),
+            Err(_) => return "bad-case".to_owned(),
+        },
     };
     let policy = if w[2] == "none" {
         None
@@ -756,7 +774,7 @@ fn run_gate(w: &[&str], ctx: &mut Ctx) -> String {
             retry_policy: &retry,
             load_balancing_policy: &lbp,
             speculative_policy: policy.as_ref().map(|p| p as &dyn scylla::policies::speculative_execution::SpeculativeExecutionPolicy),
-            request_timeout: None,
+            request_timeout: request_timeout.map(Duration::from_millis),
         };
         let plan: Vec<bool> = targets.iter().map(|t| t.conn).collect();
         let run_once = {
@@ -828,6 +846,29 @@ fn run_gate(w: &[&str], ctx: &mut Ctx) -> String {
         return "HANG".to_owned();
     };
     // ---- oracle ----
+    let timed_out = matches!(&res, Err(RequestError::RequestTimeout(_)));
+    match request_timeout {
+        Some(t) => {
+            if at > t {
+                ctx.fail(format!("the call returned at t={} although the client-side request timeout is {} ms", at, t));
+            }
+            if timed_out && at != t {
+                ctx.fail(format!("RequestTimeout returned at t={}, the deadline is t={}", at, t));
+            }
+            if let Some((ta, k)) = attempts.iter().find(|(ta, _)| *ta > t) {
+                ctx.fail(format!("attempt on target {} started at t={} after the request deadline t={}", k, ta, t));
+            }
+        }
+        None => {
+            // no scripted attempt error is a RequestTimeout: it can only come from the deadline
+            if timed_out {
+                ctx.fail("RequestTimeout returned although no client-side request timeout is configured");
+            }
+        }
+    }
+    if outstanding.get() != 0 {
+        ctx.fail(format!("{} attempt futures still alive after the call returned (executions not cancelled)", outstanding.get()));
+    }
     let mo = max_outstanding.get();
     if !idem && mo > 1 {
         ctx.fail(format!("non-idempotent request had {} attempts in flight at once (speculative policy {})", mo, w[2]));
